@@ -769,7 +769,8 @@ def check_support(ctx, P, cg, num, used):
         n = 0
         if add is not None:
             n = sum(1 for b, c in call_sites(add) if "try_from" in (c.get("callee") or "") or "try_into" in (c.get("callee") or ""))
-        ctx.ob("s.support", "I-PSET|index-converted-when-filling", n >= 2, "PeripheralSet::add converts the slot index with try_from/try_into on %d of its 2 filling paths" % n)
+        nfill = 1 + (1 if add is not None and any((c.get("callee") or "").endswith("Vec::<T, A>::push") for b, c in call_sites(add)) else 0)
+        ctx.ob("s.support", "I-PSET|index-converted-when-filling", n >= nfill, "PeripheralSet::add converts the slot index with try_from/try_into on %d of its %d filling paths" % (n, nfill))
     if "I-INFLIGHT" in used:
         w = writers("cycle_state", "CycleState")
         allowed = {"dp::master::DpMaster::<'a>::new", "dp::master::DpMaster::<'a>::increment_cycle_state",
